@@ -128,14 +128,24 @@ func attachCommentsForDecl(file *ast.File, decl ast.Decl) []*ast.CommentGroup {
 			continue
 		}
 
-		if cg.End() <= declStart {
-			if declStart-cg.End() < 10 {
-				groups = append(groups, cg)
-			}
+		if cg.End() <= declStart && cg == declDoc(decl) {
+			//the doc comment of this declaration (a comment that merely ends close
+			//before it may sit inside the previous declaration)
+			groups = append(groups, cg)
 		}
 	}
 
 	return groups
+}
+
+func declDoc(decl ast.Decl) *ast.CommentGroup {
+	switch d := decl.(type) {
+	case *ast.FuncDecl:
+		return d.Doc
+	case *ast.GenDecl:
+		return d.Doc
+	}
+	return nil
 }
 
 func noopFix(src []byte) []byte {
